@@ -110,15 +110,14 @@ end Led
 theorem intoPath_probe_led (root : Fd) (cands : List Bytes) :
     Led ext S (Procfs.intoPath.probe root cands) (PostRO S) := by
   induction cands with
-  | nil => unfold Procfs.intoPath.probe; exact Led.throw rfl
+  | nil => unfold Procfs.intoPath.probe; exact Led.pure rfl
   | cons c rest ih =>
     unfold Procfs.intoPath.probe
-    apply Led.bind_ro (Led.isOk_ro (fstatat_led root c))
-    · intro ok
-      split
-      · exact Led.pure rfl
-      · exact ih
-    · intro _; rfl
+    apply Led.lift_ro_then (existsAt_led root c)
+    intro ok
+    split
+    · exact Led.pure rfl
+    · exact ih
 
 theorem intoPath_led (base : Procfs.Base) (root : Fd) :
     Led ext S (Procfs.intoPath base root) (PostRO S) := by
